@@ -1007,6 +1007,11 @@ class OnLocation(Rule):
         return rec(e, self.loc, ctx)
 
 
+def is_integer_const(e: Expr) -> bool:
+    """Whether e is an integer constant."""
+    return e.is_const() and Fraction(e.val).denominator == 1
+
+
 class SimplifyPower(Rule):
     """Apply the following simplifications on powers:
 
@@ -1045,10 +1050,14 @@ class SimplifyPower(Rule):
                     return b.args[0] ^ a
             return e
         elif e.args[0].is_power():
-            # x ^ a ^ b => x ^ (a * b)
+            # x ^ a ^ b => x ^ (a * b), for x >= 0 or integer b
+            if not (is_integer_const(e.args[1]) or ctx.get_conds().is_not_negative(e.args[0].args[0])):
+                return e
             return e.args[0].args[0] ^ (e.args[0].args[1] * e.args[1])
         elif e.args[0].is_divides() and e.args[0].args[0] == Const(1) and e.args[0].args[1].is_power():
-            # (1 / x ^ a) ^ b => x ^ (-a * b)
+            # (1 / x ^ a) ^ b => x ^ (-a * b), for x >= 0 or integer b
+            if not (is_integer_const(e.args[1]) or ctx.get_conds().is_not_negative(e.args[0].args[1].args[0])):
+                return e
             return e.args[0].args[1].args[0] ^ (-e.args[0].args[1].args[1] * e.args[1])
         elif e.args[1].is_plus() and e.args[0].is_const() and e.args[1].args[1].is_const():
             # c1 ^ (a + c2) => c1 ^ c2 * c1 ^ a
